@@ -274,6 +274,10 @@ func (incr *incremental[Obj]) commitStatus() (numErrors int) {
 				current = incr.config.CloneObject(current)
 				current = incr.config.SetObjectStatus(current, status)
 				_, _, err = incr.table.Insert(wtxn, current)
+				// A retry must operate on the object that is now in the table: a later
+				// successful retry would otherwise write back the stale version and
+				// revert what the other writer had changed.
+				result.original = current
 			}
 		}
 
